@@ -326,26 +326,32 @@ def nested_updates(run, rng, n):
                 return '(b ? %s : %s)' % (t1, t2), 'I %s %s %s' % (A(0), s1, s2)
             return rng.choice(CLK)
         return ('d', A(1)) if kind == 'dbl' else (rng.choice(['i', 'j']), A(0))
+    # values by type class (int, dbl, clk = the value of an assignment to a clock): operands of one operator and the branches of one conditional are of one class,
+    # so that no node gets a floating-point type of its own from mixing a clock with a number (the model has fp flags on atoms only)
     def val(kind, depth):
-        """an expression of that value kind (int / num = int or double)"""
         r = rng.random()
+        if kind == 'clk':
+            if depth > 0 and r < 0.3:
+                (c1, s1), (c2, s2) = val('clk', depth - 1), val('clk', depth - 1)
+                return '(b ? %s : %s)' % (c1, c2), 'I %s %s %s' % (A(0), s1, s2)
+            t, sx = assign('clk', depth - 1)
+            return '(%s)' % t, sx
         if depth <= 0 or r < 0.25:
-            if kind == 'int' or rng.random() < 0.4: return rng.choice([('i', A(0)), ('2', A(0)), ('j', A(0))])
-            return rng.choice([('d', A(1)), ('1.5', A(1)), ('e', A(1))])
+            return rng.choice([('i', A(0)), ('2', A(0)), ('j', A(0))]) if kind == 'int' else rng.choice([('d', A(1)), ('1.5', A(1)), ('e', A(1))])
         if r < 0.5:
-            t, s = assign(rng.choice(['int'] if kind == 'int' else ['clk', 'dbl', 'clk']), depth - 1)
-            return '(%s)' % t, s
+            t, sx = assign(kind, depth - 1)
+            return '(%s)' % t, sx
         if r < 0.65:
             (c1, s1), (c2, s2) = val(kind, depth - 1), val(kind, depth - 1)
             return '(b ? %s : %s)' % (c1, c2), 'I %s %s %s' % (A(0), s1, s2)
         if r < 0.75 and kind == 'int':
-            t, sx = val('num', depth - 1)
+            t, sx = val('dbl', depth - 1)
             return 'fint(%s)' % t, 'N %s %s' % (A(1), sx)
-        (c1, s1), (c2, s2) = val(kind, depth - 1), val(kind, depth - 1)
+        (c1, s1), (c2, s2) = val(kind, depth - 1), val(kind if kind == 'int' or rng.random() < 0.6 else 'int', depth - 1)
         return '(%s + %s)' % (c1, c2), 'N %s %s' % (s1, s2)
     def assign(kind, depth):
-        t, st = lval(kind, depth)
-        v, sv = val('int' if kind == 'int' else 'num', depth)
+        t, st = lval(kind, max(depth, 0))
+        v, sv = val({'int': 'int', 'dbl': rng.choice(['dbl', 'dbl', 'int']), 'clk': rng.choice(['int', 'dbl', 'clk', 'clk'])}[kind], depth)
         op = rng.choice(['=', '=', '=', '+=', '-=']) if kind == 'int' else '='
         return '%s %s %s' % (t, op, v), 'S %s %s' % (st, sv)
     cases = []
